@@ -290,7 +290,7 @@ fn run_session(msgs: &[RefMsg], tape: Vec<u8>, read_boundaries: Vec<usize>, read
     rep.case(Some(fnv(sig.as_bytes())));
     rep.count("sessions");
     let st = doubles::shared(doubles::WEIRD_SETTINGS);
-    let port = InstrPort::scripted(st.clone(), FragReader::new(tape.clone(), read_boundaries, read_faults.clone()), FragWriter::new(write_script.clone(), write_default));
+    let port = InstrPort::scripted(st.clone(), FragReader::new(tape.clone(), read_boundaries, read_faults.clone()), FragWriter::new(write_script.clone(), write_default).gathering(fnv(sig.as_bytes()) % 2 == 1));
     let mut bus = SerialSignBus::try_new(port).expect("port setup");
     let mut transcript: Vec<String> = vec![];
     for (k, m) in msgs.iter().enumerate() {
